@@ -314,8 +314,13 @@ func cgScenarioFor(rng *rand.Rand, multi bool) *cgScenario {
 	}
 	for _, t := range sc.Topics {
 		for p := 0; p < sc.Parts; p++ {
-			if rng.Intn(3) == 0 {
+			switch x := rng.Intn(12); {
+			case x < 4:
 				sc.Stored[fmt.Sprintf("%s/%d", t, p)] = int64(rng.Intn(sc.LogN + 1))
+			case x == 4: // a commit the log no longer reaches back to (retention)
+				sc.Stored[fmt.Sprintf("%s/%d", t, p)] = -int64(1 + rng.Intn(50))
+			case x == 5: // a commit beyond the log end
+				sc.Stored[fmt.Sprintf("%s/%d", t, p)] = int64(sc.LogN + 1 + rng.Intn(50))
 			}
 		}
 	}
@@ -354,11 +359,24 @@ func cgCore(tier string) []*cgScenario {
 					}
 				}
 			}
+			if kind == "join" && beh == "return-after-k" {
+				// a member that already holds an identity meets the fault on a later join
+				for f := 1; f < nGroupFaults; f++ {
+					words = append(words, []int{gOk, gOk, f}, []int{gOk, f, f}, []int{gOk, gOk, gOk, f})
+				}
+			}
 			for _, w := range words {
 				sc := &cgScenario{Brokers: 2, Topics: []string{"t"}, Parts: 2, LogN: 12, Strategy: "range", Auto: true, Oldest: true,
 					Members: []cgMember{{Behaviour: beh, K: 4, CloseAfter: -1, MaxCalls: 6}}, Faults: map[string][]int{kind: w}, Stored: map[string]int64{"t/1": 3}}
 				out = append(out, sc)
 			}
+		}
+	}
+	// committed offsets outside the log: the configured initial position applies
+	for _, oldest := range []bool{true, false} {
+		for _, stored := range []int64{-7, 40} {
+			out = append(out, &cgScenario{Brokers: 1, Topics: []string{"t"}, Parts: 2, LogN: 12, Strategy: "range", Auto: true, Oldest: oldest, Faults: map[string][]int{},
+				Stored: map[string]int64{"t/0": stored, "t/1": 5}, Members: []cgMember{{Behaviour: "all", K: 4, CloseAfter: -1, MaxCalls: 6}}})
 		}
 	}
 	// a member that gets no partition (more members than partitions) and is closed while its empty session runs
@@ -777,6 +795,7 @@ func judgeGroup(res *cgResult) proto.Rec {
 			}
 		}
 		// start offsets
+		sessionCommitted := map[string]int64{} // what the coordinator answered for each claim of this session
 		for tp, st := range s.starts {
 			// committed offset as answered to this member's OffsetFetch for this partition before the claim started
 			committed, found := int64(-1), false
@@ -792,6 +811,7 @@ func judgeGroup(res *cgResult) proto.Rec {
 			if !found {
 				continue
 			}
+			sessionCommitted[tp] = committed
 			wantInit := committed
 			if committed < 0 {
 				wantInit = sarama.OffsetNewest
@@ -839,6 +859,11 @@ func judgeGroup(res *cgResult) proto.Rec {
 		// final commit: with auto-commit the latest marks are sent in a commit request before Consume returns
 		if sc.Auto && s.cleanup != 0 && s.consumeRet != 0 {
 			for tp, mk := range s.marks {
+				// a mark at or below the position the session started from changes nothing
+				// (MarkOffset never lowers): a commit stored beyond the log end stays as it is
+				if c, ok := sessionCommitted[tp]; ok && mk <= c {
+					continue
+				}
 				sent := false
 				for _, g := range res.group {
 					if g.Kind != "commit" || g.ClientID != fmt.Sprintf("m%d", s.member) || g.Seq > s.consumeRet || g.Seq < s.setup {
@@ -862,8 +887,26 @@ func judgeGroup(res *cgResult) proto.Rec {
 	// ---- identities at the coordinator
 	issued := map[string]map[int32]bool{} // member id -> generations issued
 	fenced := map[string]int64{}          // client -> seq of the fencing answer
+	holds := map[string]string{} // client -> member id the coordinator issued and has not taken back
 	for _, g := range res.group {
 		rec.Obs["coord:"+g.Kind]++
+		// a member keeps the identity it was issued until the coordinator fences it
+		// (UNKNOWN_MEMBER_ID / ILLEGAL_GENERATION on its join or sync) or it leaves: a retriable answer
+		// to a join is no reason to come back as a stranger
+		switch {
+		case g.Kind == "join" && g.Member == "" && holds[g.ClientID] != "":
+			vs.add("identity-dropped", "anonymous-rejoin", fmt.Sprintf("client %s sent a JoinGroup without member id although the coordinator had issued it %q and has not fenced it since", g.ClientID, holds[g.ClientID]))
+			delete(holds, g.ClientID)
+		case g.Kind == "join" && g.Code == 0 && g.IssuedMember != "":
+			holds[g.ClientID] = g.IssuedMember
+		case (g.Kind == "join" || g.Kind == "sync") && (g.Code == int16(sarama.ErrUnknownMemberId) || g.Code == int16(sarama.ErrIllegalGeneration) || g.Code == int16(sarama.ErrFencedInstancedId)):
+			delete(holds, g.ClientID)
+		case g.Kind == "leave":
+			delete(holds, g.ClientID)
+		}
+		if g.Kind == "join" && g.Member != "" {
+			rec.Obs["joins_carrying_an_identity"]++
+		}
 		switch g.Kind {
 		case "join":
 			if g.Code == 0 && g.IssuedMember != "" {
@@ -969,6 +1012,11 @@ func judgeGroup(res *cgResult) proto.Rec {
 		// whatever was committed must have been delivered before (from the first start on)
 		f, ok := firstStart[tp]
 		if !ok {
+			continue
+		}
+		if v, was := sc.Stored[tp]; was && base+v > res.logEnd && st == base+v {
+			// the group's commit from before the run lies beyond the log end and no
+			// mark of this run can exceed it: it is not evidence of anything delivered
 			continue
 		}
 		for o := f; o < st && o < res.logEnd; o++ {
